@@ -323,21 +323,19 @@ def incEncode (c : CName) (cs : List (List Nat)) : Option (List Nat) :=
 
 def cps' (s : String) : List Nat := s.toList.map Char.toNat
 
-/-- the names the model knows (after `normName`: lower case, `_` → `-`); anything else is outside the
-model (CPython's alias table is not transcribed) -/
+/-- the names the model knows (compared after `normName`: lower case, `_` → `-`); anything else is outside
+the model (CPython's alias table is not transcribed) -/
+def nameTable : List (List Nat × CName) := [
+  (cps' "utf-8", .plain .u8), (cps' "utf8", .plain .u8), (cps' "utf-8-sig", .u8sig),
+  (cps' "utf-16", .u16), (cps' "utf-16-le", .plain .u16le), (cps' "utf-16le", .plain .u16le),
+  (cps' "utf-16-be", .plain .u16be), (cps' "utf-16be", .plain .u16be),
+  (cps' "utf-32", .u32), (cps' "utf-32-le", .plain .u32le), (cps' "utf-32le", .plain .u32le),
+  (cps' "utf-32-be", .plain .u32be), (cps' "utf-32be", .plain .u32be),
+  (cps' "latin-1", .plain .l1), (cps' "latin1", .plain .l1), (cps' "iso-8859-1", .plain .l1),
+  (cps' "ascii", .plain .ascii), (cps' "us-ascii", .plain .ascii)]
+
 def lookupName (n : Name) : Option CName :=
-  let m := normName n
-  if m = cps' "utf-8" ∨ m = cps' "utf8" then some (.plain .u8)
-  else if m = cps' "utf-8-sig" then some .u8sig
-  else if m = cps' "utf-16" then some .u16
-  else if m = cps' "utf-16-le" ∨ m = cps' "utf-16le" then some (.plain .u16le)
-  else if m = cps' "utf-16-be" ∨ m = cps' "utf-16be" then some (.plain .u16be)
-  else if m = cps' "utf-32" then some .u32
-  else if m = cps' "utf-32-le" ∨ m = cps' "utf-32le" then some (.plain .u32le)
-  else if m = cps' "utf-32-be" ∨ m = cps' "utf-32be" then some (.plain .u32be)
-  else if m = cps' "latin-1" ∨ m = cps' "latin1" ∨ m = cps' "iso-8859-1" then some (.plain .l1)
-  else if m = cps' "ascii" ∨ m = cps' "us-ascii" then some (.plain .ascii)
-  else none
+  (nameTable.find? (fun e => e.1 == normName n)).map (·.2)
 
 /-- `Inner.out` for CPython's decoders: the text produced so far -/
 def cpyOut (n : Name) (d : List Nat) (final : Bool) : List Nat :=
